@@ -1,0 +1,17 @@
+//go:build verif
+// +build verif
+
+// Package verifhook is a verification seam: with the build tag "verif" the
+// library reports the instrumented points it passes to an external simulator.
+// Without the tag Point is an empty function and the library is unchanged.
+package verifhook
+
+// Hook, when non nil, is called at every instrumented point with the site name.
+var Hook func(site string)
+
+// Point reports that the instrumented site was reached.
+func Point(site string) {
+	if h := Hook; h != nil {
+		h(site)
+	}
+}
